@@ -409,9 +409,8 @@ func (e *ev) node(n *N) {
 		v := Str(s)
 		for _, f := range n.Names {
 			v = e.applyFilter(f, []Val{v})
-			v = Str(ToStr(v))
 		}
-		e.out.write(v.S)
+		e.out.write(ToStr(v))
 	case "block":
 		b, pos := e.resolve(n.S)
 		if b == nil {
@@ -1065,6 +1064,14 @@ func (e *ev) applyFilter(name string, args []Val) Val {
 		ret = Str(strings.ToUpper(OwnStr(args[0])))
 	case "fid":
 		ret = args[0]
+	case "flen":
+		// the length of a string in bytes, of a list in elements
+		switch args[0].K {
+		case KArr, KHash:
+			ret = Num(float64(len(args[0].A)))
+		default:
+			ret = Num(float64(len(OwnStr(args[0]))))
+		}
 	case "lidx":
 		ret = Str(OwnStr(args[0]) + "@-")
 		if l, ok := e.get("loop"); ok && l.K == KHash {
